@@ -277,6 +277,11 @@ func execC05Map(r *simkit.Run) {
 					diff += "+IndexFileSize"
 				}
 				key := KindName(kind) + ":" + diff
+				if kind != storage.NeedleMapInMemory && (overwrote || deleted) {
+					// the recorded recount finding: WHICH counters come out different depends on the history
+					// (how many overwrites, deletes, bloom-filter hits), the root cause does not
+					key = KindName(kind) + ":recount-after-overwrite-or-delete"
+				}
 				if !(kind != storage.NeedleMapInMemory && (overwrote || deleted)) {
 					// (the LevelDB recount finding needs an overwrite or a delete in the history)
 					key += "(no-overwrite-no-delete)"
